@@ -13,6 +13,7 @@ import subprocess
 
 import lib
 from lib import gN, gbool, gopt, glist, hexs
+from props import c10_world
 
 HEADER = "From CJ Require Import Common.Base C10.Model C10.Run.\n"
 RUSTDIR = os.path.join(lib.VERIF, "harness", "rust", "c10")
@@ -149,6 +150,12 @@ def replay_cases(obj):
 
     def walk(o):
         if isinstance(o, dict):
+            if o.get("kind") == "world" and "steps" in o and "msgs" in o:
+                c = dict(o)
+                c.setdefault("subnets", SUBNETS)
+                c["ops"] = [s["op"] for s in c["steps"] if s["t"] == "go"]
+                out.append(c)
+                return
             if o.get("kind") in ("send", "announce", "clear", "ingest", "pubfail", "shutdown") and ("reg" in o or "via" in o or "secret" in o):
                 c = dict(o)
                 if c["kind"] in ("ingest", "shutdown"):
@@ -171,7 +178,8 @@ def gen_cases(ctx):
     good = v4 + mapped + v6
     cases = [{"kind": "meta"}]
     for c in replay_cases(ctx.replay):
-        cases.append(c)
+        if c["kind"] != "world":
+            cases.append(c)
     for mode in ("err", "close"):
         cases.append({"kind": "pubfail", "via": mode, "reg": {"phantom": hx(v6[2]), "addr": hx(v4[0]), "port": 443, "proto": 1},
                       "secret": rng.getrandbits(256).to_bytes(32, "big").hex()})
@@ -656,6 +664,8 @@ def run_pubsub(ctx, binary, scripts, classify, channel):
 DRIVER_FILES = {"zz_verif_c10_driver_test.go": "c10/detector_driver_test.go",
                 "zz_verif_c10_shim_send_test.go": "c10/shim_send_test.go",
                 "zz_verif_c10_shim_none_test.go": "c10/shim_none_test.go"}
+DRIVER_FILES.update(c10_world.WORLD_FILES)
+c10_world.set_driver_files(DRIVER_FILES)
 
 
 def run_go(ctx, cases):
@@ -701,7 +711,17 @@ def run(ctx):
     ctx.cov["rule"] = ("a case is one station call (sendToDetector with arbitrary registration fields / register+markActive / "
                        "clear / one C2SWrapper through parseRegMessage with its announcements) or one message through the real Rust "
                        "handler from three table states; non-trivial = hash-distinct, counted per (kind, outcome class)")
-    ctx.coq_props()
+    # the theorems about sequences (PropsWorld.v) are stated over coq/C08's model of the station's registration table
+    ctx.extra_dirs += ["C08"]
+    rc, out = ctx.coq_make(["C08/Counters.vo"])
+    if rc == 0:
+        ctx.coq_props(props_files=["C10/Props.v", "C10/PropsWorld.v"])
+        ctx.cov["composition"] = "PropsWorld.v checked against coq/C08 (station table over time)"
+    else:
+        ctx.extra_dirs[:] = []
+        ctx.coq_props()
+        ctx.cov["composition"] = "NOT checked in this run: coq/C08 does not build: " + out[-300:]
+        ctx.broken("proof-obligation", "the theorems of C10/PropsWorld.v could not be re-checked: coq/C08 (their model of the station's table) does not build: " + out[-300:])
     binary, rsdir = build_detector(ctx)
     if binary is None:
         return
@@ -749,10 +769,75 @@ def check_call_site(ctx):
                  "running the deferred Cleanup(): the clear request is never sent" % skip.group(0), {"call": skip.group(0)})
 
 
+WORLD_KINDS = ["world/duplicate-unused", "world/duplicate-used", "world/no-duplicate", "world/reregistered-after-expiry",
+               "world/tracked-unvalidated", "world/packets", "world/random", "world/fault-new", "world/fault-update", "world/fault-clear",
+               "world/fault-random", "publish/clean/delivered", "publish/faults/delivered", "publish/faults/lost"]
+
+
+def run_world(ctx, binary, wreal, res_real, wfake, fake, retries):
+    """evaluate the world histories: direct oracle on the real station / real SessionTracker, then the Coq world model"""
+    import sys
+    E = sys.modules[__name__]
+    if not ctx.extra_dirs:
+        ctx.cov["world"] = "not run: coq/C08 does not build"
+        return
+    if retries is None:
+        ctx.broken("driver", "the driver did not report the retry budget of the station's redis client")
+        return
+    pairs = list(zip(wreal, res_real))
+    if fake is None or fake[2] is None or len(fake[2]) != len(wfake):
+        rc, out = (fake[0], fake[1]) if fake else (-1, "")
+        ctx.broken("driver", "the fake-clock build of the world driver (go test -tags faketime -ldflags=-checklinkname=0) did not produce "
+                   "results (rc=%s): %s" % (rc, " ".join(out.split())[-900:]))
+    else:
+        ctx.cov["clock"] = "faketime (runtime clock moved by the script; ages exact to the nanosecond)"
+        pairs += list(zip(wfake, fake[2]))
+
+    def classify_new(msgs):
+        dets, _ = run_detector(binary, msgs)
+        return dets
+    terms, origin = [], []
+    for c, r in pairs:
+        slim = {k: v for k, v in c.items() if k not in ("subnets", "ops")}
+        if r.get("panic") or r.get("err") or not r.get("world"):
+            ctx.broken("driver", "world case %s: %s %s" % (c["cls"], r.get("panic"), r.get("err")), slim)
+            continue
+        bad = [s["err"] for s in r["world"]["steps"] if s.get("err")]
+        if bad:
+            if any(b.startswith("panic") for b in bad):
+                ctx.fail("panic:world", "the station code panicked in a world history: %s" % bad[0][:200], slim)
+            else:
+                ctx.broken("driver", "world case %s: %s" % (c["cls"], bad[0]), slim)
+            continue
+        for t_ in c10_world.evaluate(ctx, E, binary, c, r["world"], retries, classify_new):
+            terms.append(t_)
+            origin.append(slim)
+    ctx.cov["world"] = {"histories": len(pairs), "terms": len(terms), "client_max_retries": retries, "pinned_retries": c10_world.PINNED_RETRIES}
+    if pairs:
+        c, r = pairs[min(1, len(pairs) - 1)]
+        ctx.sample({"world_case": {k: v for k, v in c.items() if k not in ("subnets", "ops")}, "steps": r.get("world", {}).get("steps", [])[:4]})
+    mm = ctx.coq_mismatches("c10w", c10_world.HEADER_W, terms, "chkw", shard=60, need_vo=["C10/RunWorld.vo"])
+    if mm:
+        ctx.cov["mismatches"] += len(mm)
+        ctx.broken("correspondence", "the world model (coq/C10/RunWorld.v: C08's table + publication + detector) and the implementation disagree on "
+                   "%d history/publication case(s); first: %s" % (len(mm), terms[mm[0]][:300]), {"case": origin[mm[0]]})
+
+
 def _run(ctx, binary):
     check_call_site(ctx)
     cases = gen_cases(ctx)
-    res = run_go(ctx, cases)
+    # the world lane: histories at one instant with connection faults (this run), timed histories on the fake clock (a second
+    # build of the same driver with the runtime's clock under the script's control, started alongside)
+    wreplay = [c for c in replay_cases(ctx.replay) if c["kind"] == "world"]
+    wreal = [c for c in wreplay if c["mode"] == "real"] + c10_world.gen_faults(ctx, SUBNETS)
+    wfake = [c for c in wreplay if c["mode"] == "fake"] + c10_world.gen_timed(ctx, SUBNETS)
+    n_base = len(cases)
+    cases = cases + wreal
+    import concurrent.futures
+    with concurrent.futures.ThreadPoolExecutor(max_workers=1) as ex:
+        fut = ex.submit(c10_world.go_run_fake, ctx, wfake) if ctx.extra_dirs else None
+        res = run_go(ctx, cases)
+        fake = fut.result() if fut else None
     if res is None:
         return
     # every published message, plus detector-only messages, through the real Rust code
@@ -954,6 +1039,7 @@ def _run(ctx, binary):
         for t_ in run_pubsub(ctx, binary, gen_pubsub(ctx, hpool), classify, (meta or {}).get("channel", "dark_decoy_map")):
             terms.append(t_)
             origin.append((None, "pubsub"))
+    run_world(ctx, binary, wreal, res[n_base:], wfake, fake, (meta or {}).get("max_retries"))
     ctx.sample({"case": cases[5], "result": res[5]})
     ing = [i for i, c in enumerate(cases) if c["kind"] == "ingest" and (res[i].get("regs") or [])]
     if ing:
@@ -963,7 +1049,7 @@ def _run(ctx, binary):
     ctx.require_kinds([k_ for k_ in ["meta", "send/accepted", "send/InvalidPhantom", "send/InvalidClient", "send/MixedV4V6Error",
                        "send/UnrecognizedProto", "announce/accepted", "clear/acted-on", "ingest/0-regs", "ingest/1-regs",
                        "ingest/2-regs", "ingest-announce/ok", "newreg/ok", "newreg/rejected", "detect/ok/added", "detect/InvalidPhantom/nothing",
-                       "detect/InvalidClient/nothing", "detect/MixedV4V6Error/nothing", "detect/UnrecognizedProto/cleared", "history/lifetime", "history/random", "pubsub", "pubfail/err", "pubfail/close", "shutdown/idle", "shutdown/busy"]
+                       "detect/InvalidClient/nothing", "detect/MixedV4V6Error/nothing", "detect/UnrecognizedProto/cleared", "history/lifetime", "history/random", "pubsub", "pubfail/err", "pubfail/close", "shutdown/idle", "shutdown/busy"] + WORLD_KINDS
                        if not (k_.startswith("send/") and ctx.cov.get("driver_shim"))])
     if ctx.failures or ctx.brokens:
         # outcome classes are only meaningful as a generator self-test when nothing else is wrong
